@@ -21,7 +21,8 @@ RULE = (
     "Enumerated: (A) path lists over {a,b,ab} with 1-3 segments: 2-path and 3-path sets in every order (strided in the quick tier) and every 97th (quick) / "
     "5th (thorough) 4-path set in its orders - end to end; ALL ordered lists of <= 4 paths are covered at function level "
     "through dds' own overlap utility; also triples over an extended alphabet with characters that sort below '/'; each rendered with the keeps in the root, one nested in a kept "
-    "function, one in a helper, or one as a data function of another module; (B) every cycle of length 1-4 over 4 edge kinds, "
+    "function, one in a helper, one as a data function of another module, or one as the path of the entry point itself (dds.keep(p, root) / "
+    "@dds.data_function(p) on the evaluated function); (B) every cycle of length 1-4 over 4 edge kinds, "
     "entered at every member, in one and in two modules, plus the same shape with one edge cut; (C) dds.eval at depth 1-4 "
     "below plain-call / keep edges, plus the same chain without the eval. Each program is evaluated by real dds on a store "
     "pre-populated by a valid evaluation; oracle = expected DDS error code (or normal evaluation for the well-formed twin), "
@@ -65,7 +66,10 @@ def render_paths(pkg, paths, placement, special):
     m1 = None
     m0 += ["def leaf():", "    vlog.rec('leaf')", "    return ('leaf',)", "", ""]
     body = []
+    entry = placement in ("entrykeep", "entrydata")
     for i, p in enumerate(paths):
+        if i == special and entry:
+            continue   # this path is the one of the entry point itself: dds.keep(p, root) / @dds.data_function(p) on root
         if i == special and placement == "nested":
             m0 += ["def mid():", "    vlog.rec('mid')", f"    return dds.keep({p!r}, leaf)", "", ""]
             body.append("    r%d = dds.keep('/zz/mid', mid)" % i)
@@ -78,7 +82,9 @@ def render_paths(pkg, paths, placement, special):
             body.append("    r%d = dfun()" % i)
         else:
             body.append(f"    r{i} = dds.keep({p!r}, leaf)")
-    m0 += ["def root():", "    vlog.rec('root')"] + body + ["    return (%s,)" % ", ".join(f"r{i}" for i in range(len(paths))), ""]
+    if placement == "entrydata":
+        m0 += [f"@dds.data_function({paths[special]!r})"]
+    m0 += ["def root():", "    vlog.rec('root')"] + body + ["    return (%s,)" % ", ".join(f"r{i}" for i in range(len(paths)) if not (entry and i == special)), ""]
     files = {f"{pkg}/__init__.py": "", f"{pkg}/m0.py": "\n".join(m0)}
     if m1:
         files[f"{pkg}/m1.py"] = "\n".join(m1)
@@ -88,7 +94,7 @@ def render_paths(pkg, paths, placement, special):
 def family_a(tier):
     paths = all_paths()
     cases = []
-    placements = ["root", "nested", "helper", "datafun"]
+    placements = ["root", "nested", "helper", "datafun", "entrykeep", "entrydata"]
     n = 0
     for k in (2, 3, 4):
         for combo in itertools.combinations(paths, k):
@@ -105,7 +111,7 @@ def family_a(tier):
             if k == 4:
                 perms = perms[:: (1 if tier == "thorough" else 5)]
             for pi, perm in enumerate(perms):
-                placement = placements[(n + pi) % 4]
+                placement = placements[(n + pi) % 6]
                 cases.append({"fam": "A", "paths": list(perm), "placement": placement, "special": (n + pi) % k})
     # extended alphabet: every overlapping triple (depth <= 2) in every order, and a stride of the prefix-free ones
     px = all_paths(SEGS_X, 2)
@@ -118,7 +124,7 @@ def family_a(tier):
         if ov and tier != "thorough" and m % 3:
             continue
         for pi, perm in enumerate(itertools.permutations(combo)):
-            cases.append({"fam": "A", "paths": list(perm), "placement": placements[(m + pi) % 4], "special": (m + pi) % 3})
+            cases.append({"fam": "A", "paths": list(perm), "placement": placements[(m + pi) % 6], "special": (m + pi) % 3})
     return cases
 
 
@@ -349,7 +355,12 @@ class Runner(object):
         write_files(self.root, render_case(case, pkg))
         self.w.call("call", module="dds", func="accept_module", args=[pkg])
         before = snapshot(self.store_dir)
-        res = self.w.call("eval", module=f"{pkg}.m0", func="root", style="eval")
+        if case["fam"] == "A" and case["placement"] == "entrykeep":
+            res = self.w.call("eval", module=f"{pkg}.m0", func="root", style="keep", path=case["paths"][case["special"]])
+        elif case["fam"] == "A" and case["placement"] == "entrydata":
+            res = self.w.call("eval", module=f"{pkg}.m0", func="root", style="direct")
+        else:
+            res = self.w.call("eval", module=f"{pkg}.m0", func="root", style="eval")
         after = snapshot(self.store_dir)
         return res, before == after
 
